@@ -17,7 +17,9 @@ for p in selftest/mutants/*${pat}*.patch seeded/*${pat}*/patch.diff; do
     echo "SKIP $p (does not apply to the current tree)"
     rm -rf "$d"; continue
   fi
-  out=$(VERIF_REPO="$d" ./check "$prop" 2>&1); rc=$?
+  o=$(mktemp -d "${TMPDIR:-/tmp}/gabi-mut-out-XXXXXX")
+  out=$(VERIF_REPO="$d" VERIF_OUT="$o" ./check "$prop" 2>&1); rc=$?
+  rm -rf "$o"
   n=$(echo "$out" | grep -c '^VIOLATION')
   if [ "$rc" -eq 1 ] && [ "$n" -gt 0 ]; then
     echo "CAUGHT $p by $prop: $(echo "$out" | grep '^VIOLATION' | head -2 | sed 's/.*replays\/[^/]*\///' | tr '\n' ' ')"
